@@ -172,6 +172,13 @@ func (c16) Gen(r *sim.RNG, tier string, idx int) *Scenario {
 				t := tg[r.Intn(len(tg))]
 				entries := c05Entries[t.Kind]
 				op := Op{Entry: entries[0], World: wi, Ref: gen.SpellRef(r, w.Root, t.URL, t.Ptr, r.Intn(3)), Root: []string{"nil", "typed", "generic"}[r.Intn(3)]}
+				if r.Bool(0.35) && (t.Kind == "parameter" || t.Kind == "response") {
+					// the variants without options: nil options, root given, documents through the package-level loader
+					op.Entry = map[string]string{"parameter": "ResolveParameter", "response": "ResolveResponse"}[t.Kind]
+					op.Root = []string{"typed", "generic"}[r.Intn(2)]
+				} else if r.Bool(0.3) {
+					op.GlobalLoader = true
+				}
 				sc.Ops = append(sc.Ops, op)
 			}
 		}
